@@ -53,6 +53,11 @@ def ref_sort(name: str):
     return _SORTS[name]
 
 
+# Opaque sorts that stand for ANY python value (a generated / user-supplied datum: 0, "", False, [] and {} included) rather than for an object of some class:
+# the truthiness of such a value is not known - it is an uninterpreted predicate of the value and both answers are explored. Contract modules add their sorts.
+ANY_VALUE_SORTS: set = set()
+
+
 class Opaque:
     """A reference to an object we know nothing about except its (nominal) class.
 
